@@ -195,6 +195,9 @@ def hamming(tier, seed):
                         opts.append(rot)
             for info in opts:
                 yield ("hamming", f"mu={mu},ext={int(ext)},info={infoset_str(info)}", {"mu": mu, "extended": ext, "info": info})
+    for mu in (7, 8):                                    # lengths 127 / 128 / 255 / 256
+        for ext in (False, True):
+            yield ("hamming", f"mu={mu},ext={int(ext)},info=left", {"mu": mu, "extended": ext, "info": "left"})
 
 
 def golay(tier, seed):
@@ -204,13 +207,16 @@ def golay(tier, seed):
             yield ("golay", f"ext={int(ext)},info={infoset_str(info)}", {"extended": ext, "info": info})
 
 
+LONG = (127, 128, 129, 255, 256, 257)     # lengths around the ranges of the 8-bit integer types
+
+
 def repetition(tier, seed):
-    for n in range(1, 13):
+    for n in list(range(1, 13)) + list(LONG):
         yield ("repetition", f"n={n}", {"n": n})
 
 
 def spc(tier, seed):
-    for k in range(1, 13):
+    for k in list(range(1, 13)) + [n - 1 for n in LONG]:
         yield ("spc", f"k={k}", {"k": k})
     yield ("spc", "k=4,via=from_length", {"k": 4, "via": "from_length"})
 
@@ -220,6 +226,8 @@ def rm(tier, seed):
     for m in range(1, M + 1):
         for r in range(0, m):
             yield ("rm", f"r={r},m={m}", {"r": r, "m": m})
+    for r, m in ((0, 7), (1, 7), (0, 8), (1, 8)):      # lengths 128 and 256 with k <= 9
+        yield ("rm", f"r={r},m={m}", {"r": r, "m": m})
 
 
 def cyclic(tier, seed):
@@ -469,7 +477,7 @@ def message_set(k, full_limit=12):
         s.add(1 << i)
         s.add(((1 << k) - 1) ^ (1 << i))
         s.add((1 << (i + 1)) - 1)
-        for j in range(i):
+        for j in (range(i) if k <= 64 else {i - 1, i // 2, 0} - {i, -1}):     # long codes: a linear number of pairs
             s.add((1 << i) | (1 << j))
     s.add(int("10" * k, 2) & ((1 << k) - 1))
     return sorted(s)
